@@ -4901,6 +4901,8 @@ EmitJmpCall:
 
           err = _code->add_address_to_address_table(jump_address);
           if (ASMJIT_UNLIKELY(err != Error::kOk)) {
+            // The instruction is not emitted - make the relocation entry we have just created a no-op.
+            re->_reloc_type = RelocType::kNone;
             goto Failed;
           }
 
@@ -4963,6 +4965,10 @@ EmitRel:
 
     Fixup* fixup = _code->new_fixup(*label, _section->section_id(), offset, rel_offset, of);
     if (ASMJIT_UNLIKELY(!fixup)) {
+      // The instruction is not emitted - make a relocation entry created for it a no-op.
+      if (re) {
+        re->_reloc_type = RelocType::kNone;
+      }
       goto OutOfMemory;
     }
 
